@@ -154,6 +154,38 @@ def truncate (l : L) (target : Nat) : L × Bool :=
     let l2 := if th.next.isSome then saveBlock l1 target { th with next := none } else l1
     ({ l2 with tip := target, trunkHeight := th.height }, true)
 
+/-- what `GetBranchInfo` hands to `Truncate`: the recorded branch tips above the target, in table order -/
+def scanTips (l : L) (target height : Nat) : List (Nat × Nat) :=
+  l.ZI.filter (fun p => p.1 ≠ target && p.2 > height)
+
+/-- `Truncate` cutting the branches of a given list of tips (`truncate` = this on the full scan, `truncateOn_scanTips`) -/
+def truncateOn (l : L) (target : Nat) (tips : List (Nat × Nat)) : L × Bool :=
+  match lookup l.B target with
+  | none => (l, false)
+  | some th =>
+    let l1 := tips.foldl (fun acc p =>
+      let (a, remain) := removeAbove l th.height (l.B.length + 1) p.1 acc
+      let r := remain.getD target
+      let rh := (lookup l.B r).map (·.height) |>.getD th.height
+      { a with ZI := put (del a.ZI p.1) r rh }) l
+    let l2 := if th.next.isSome then saveBlock l1 target { th with next := none } else l1
+    ({ l2 with tip := target, trunkHeight := th.height }, true)
+
+/-- `Truncate` when the storage engine breaks the branch-tip scan off after `n` entries with an error (`brk = some n`):
+the code hands the error on (`GetBranchInfo` looks at the iterator's error AFTER the loop) and writes nothing. A scan
+that broke off must not be taken for a complete one: `truncatePartial` is that (wrong) behaviour. -/
+def truncateScan (l : L) (target : Nat) (brk : Option Nat) : L × Bool :=
+  match lookup l.B target, brk with
+  | none, _ => (l, false)
+  | some _, some _ => (l, false)
+  | some _, none => truncate l target
+
+/-- NOT the code: a truncation that trusts the first `n` entries of a scan that broke off -/
+def truncatePartial (l : L) (target : Nat) (n : Nat) : L × Bool :=
+  match lookup l.B target with
+  | none => (l, false)
+  | some th => truncateOn l target ((scanTips l target th.height).take n)
+
 /-- path from a block up to the root, the block itself first (fuel = number of stored blocks) -/
 def ancestors (l : L) : Nat → Nat → List Nat
   | 0, _ => []
